@@ -162,8 +162,9 @@ MANIFEST = dict(
     text='Exact finite decision in Coq over Q(sqrt 3) for all 7 systems (orders, integer unimodular permutations, proper rotations, both groups, the '
          'rot[i].B.perm[i] = B pairing on a spanning set, ROTATIONS = rotations()), and theorems over R: Umis angle k is the rotation angle of '
          'U1\'.U2.rot[k]\' in [0,180]; the multiset of angles is invariant under symmetry-equivalent U1 or U2, swapping and a common rotation; Umis(U,U) contains 0 '
-         '- instantiated for every system through index-permutation tables computed in the kernel.',
+         '- instantiated for every system through index-permutation tables computed in the kernel. rot[i].B.perm[i] = B is proved for the regenerated '
+         'form_b_mat of every cell conforming to the crystal system (B identified by Cholesky uniqueness, then linearity over the spanning set).',
     design_ref='DESIGN.md section 5 C12',
-    note='Trusted: Coq kernel, vm_compute, R axioms, T1/T2 translators, b_basis. The span of the conforming B matrices by b_basis is not proved (checked numerically).',
+    note='Trusted: Coq kernel, vm_compute, R axioms, T1/T2 translators, b_basis. Monoclinic conforming cells are the b-unique setting.',
     technique='Coq vm_compute over Q(sqrt 3) tables + proofs over R transported by a ring homomorphism',
 )
